@@ -2,8 +2,58 @@ package detsim
 
 import (
 	"context"
+	"fmt"
+	"runtime"
+	"sort"
 	"time"
 )
+
+// WithCancel replaces context.WithCancel in instrumented code: same contexts,
+// plus a register of derived contexts whose cancel function has not been
+// called yet.  A context that is still alive and un-cancelled when its creator
+// has shut down is a leak in the parent's children set (and, below a parent
+// that is not one of the standard library's own types, a leaked goroutine).
+func WithCancel(parent context.Context) (context.Context, context.CancelFunc) {
+	ctx, cancel := context.WithCancel(parent)
+	if cur == nil {
+		return ctx, cancel
+	}
+	_, file, line, _ := runtime.Caller(1)
+	s := cur
+	s.ctxSeq++
+	id := s.ctxSeq
+	if s.openCtx == nil {
+		s.openCtx = map[int]openCtx{}
+	}
+	s.openCtx[id] = openCtx{site: fmt.Sprintf("%s:%d", file, line), ctx: ctx}
+	return ctx, func() {
+		if cur == s {
+			delete(s.openCtx, id)
+		}
+		cancel()
+	}
+}
+
+type openCtx struct {
+	site string
+	ctx  context.Context
+}
+
+// OpenContexts lists the creation sites of derived contexts that are neither
+// cancelled (directly or through their parent) nor released.
+func OpenContexts() []string {
+	var out []string
+	if cur == nil {
+		return nil
+	}
+	for _, c := range cur.openCtx {
+		if c.ctx.Err() == nil {
+			out = append(out, c.site)
+		}
+	}
+	sort.Strings(out)
+	return out
+}
 
 // deadlineCtx makes a context whose deadline lives on the simulated clock.
 type deadlineCtx struct {
